@@ -183,9 +183,9 @@ def check_static(res, spec, tr, fit, label, analytic):
         res.count("strict pair")
 
 
-def check_dynamic(res, base, rng, label):
+def check_dynamic(res, base, rng, label, amp_frac=0.6):
     """two-frame series, adimensional velocities: factor on all time stamps / on all lengths"""
-    specs, times, truth = gen.series(rng, base, 2, field="random", amp_frac=0.6, renumber=False, times=[0.0, 1.0], snap=20)
+    specs, times, truth = gen.series(rng, base, 2, field="random", amp_frac=amp_frac, renumber=False, times=[0.0, 1.0], snap=30)
     replay = {"specs": [{k: s[k] for k in ("vertices", "edges", "cells")} for s in specs], "label": label}
 
     def solve(scale_len, scale_time):
@@ -213,8 +213,14 @@ def check_dynamic(res, base, rng, label):
     tol = 20 * 5e-4 * math.sqrt(A.shape[0]) / sv[-1]
     rl, rt = float(10 ** rng.uniform(-3, 3)), float(10 ** rng.uniform(-3, 3))
     for what, sl, st in (("time stamps x 1e3", 1.0, 1e3), ("time stamps x 1e-3", 1.0, 1e-3), ("lengths x 1e-3", 1e-3, 1.0),
-                         ("lengths x 1e3", 1e3, 1.0), (f"lengths x {rl:.3g} and time stamps x {rt:.3g}", rl, rt)):
-        got, _ = solve(sl, st)
+                         ("lengths x 1e3", 1e3, 1.0), (f"lengths x {rl:.3g} and time stamps x {rt:.3g}", rl, rt),
+                         ("lengths x 1e-3 and time stamps x 1e3", 1e-3, 1e3), ("lengths x 1e3 and time stamps x 1e-3", 1e3, 1e-3)):
+        try:
+            got, _ = solve(sl, st)
+        except Exception as ex:  # noqa
+            res.fail("oracle", f"dynamic inference (adimensional velocities) raises {type(ex).__name__} ({str(ex)[:60]}) when {what}, although it succeeds in the "
+                     f"original units", dict(replay, change=what))
+            continue
         d = float(np.max(np.abs(got - ref)))
         res.evaluations += 1
         res.count("dynamic unit changes")
@@ -256,6 +262,9 @@ def run(res, tier, seed):
         for tr in transforms(rng, spec):
             check_static(res, spec, tr, "taubinSVD" if rng.random() < 0.5 else "dlite", label, analytic)
         check_dynamic(res, spec, rng, label)
+        if label.endswith("kind0") or label.endswith("kind2"):
+            # a slowly creeping tissue: displacements of a thousandth of the usual ones (speeds of 1e-3 length units per time unit)
+            check_dynamic(res, spec, rng, label + "/slow", amp_frac=0.6e-3)
     res.traces = res.evaluations
 
 
